@@ -6,7 +6,7 @@ package c03
 // step-down and its re-election). Thorough tier: ONE real 3-member cluster per process
 // (tests.NewTestCluster(ctx, 3)); the old leader keeps receiving requests after another member took over.
 //
-// A round: 2-4 callers send a drawn mix of AllocID / GetStore / PutStore(new store) / Tso / GetMembers
+// A round: 2-4 callers send a drawn mix of AllocID / GetStore / PutStore(store 1 with a fresh label value) / Tso / GetMembers
 // requests over a real grpc connection to the CURRENT leader's client URL; the leader steps down
 // (Member.ResetLeader, or TestServer.ResignLeader = ResetLeader + etcd leader hand-over) while they keep
 // sending; the harness watches the leader record out of band (raw read-only transactions through the
@@ -19,12 +19,14 @@ package c03
 //       the not-leader error (gRPC status carrying "not leader") — not with ids, not with store data, not
 //       with a response header error such as NOT_BOOTSTRAPPED; Tso is refused; GetMembers is still served
 //       and does not name the old leader as leader;
-//   (2) a PutStore that was refused wrote nothing: the store's key is absent from etcd (raw prefix read of
-//       <root>/raft/s/) at the end of the round, and the serving leader does not know the store;
+//   (2) a PutStore that was refused wrote nothing: every PutStore carries a label value of its own; at the end of
+//       the round neither the store record in etcd (raw read of <root>/raft/s/<id>) nor the record the leader
+//       serves carries the value of a refused request;
 //   (3) the cluster is bootstrapped: NOT_BOOTSTRAPPED is wrong for every request that does not straddle a
 //       step-down (a member that passes its own leader check before its leader set-up is in place);
 //   (4) after the election has settled, at every sampled instant exactly one member reports IsLeader(), it
-//       is the owner of the leader record, and GetMembers of every member names it.
+//       is the owner of the leader record, its own GetMembers names it and no other member's GetMembers names
+//       that other member itself (a follower's view may lag: counted, not judged).
 // Real clock and scheduler: failures carry the request history; timeouts, transport errors and leader
 // changes the harness did not ask for are inconclusive.
 
@@ -44,14 +46,13 @@ import (
 	"github.com/pingcap/kvproto/pkg/pdpb"
 	"github.com/tikv/pd/server/election"
 	"github.com/tikv/pd/server/tso"
-	"go.etcd.io/etcd/clientv3"
 	"pdverif/livesrv"
 	"pdverif/vkit"
 	"pgregory.net/rapid"
 )
 
 func init() {
-	vkit.Register("grpc", vkit.N{Quick: 100, Thorough: 1600}, genGrpc, runGrpc)
+	vkit.Register("grpc", vkit.N{Quick: 64, Thorough: 960}, genGrpc, runGrpc)
 }
 
 // TestPropZZLiveShutdown runs after TestProp (the driver selects ^TestProp): stops the live servers.
@@ -119,7 +120,7 @@ func (e *lev) String() string {
 	}
 	extra := ""
 	if e.Kind == "putstore" {
-		extra = fmt.Sprintf("(store %d)", e.StoreID)
+		extra = fmt.Sprintf("(store 1, label c03=%d)", e.StoreID)
 	}
 	return fmt.Sprintf("#%d round %d caller %d %s -> %s %s%s sent@%d received@%d: %s%s", e.No, e.Round, e.Caller, e.Phase, e.To, e.Kind, extra, e.Send, e.Recv, res, nl)
 }
@@ -176,7 +177,7 @@ func (h *lhist) dump(base int64) string {
 var (
 	lmu       sync.Mutex
 	lcaseNo   int
-	nextStore uint64 = 1 << 32 // store ids of PutStore requests: far above anything the allocator hands out in a run
+	nextStore uint64 // label values of PutStore requests
 )
 
 func freshStoreID() uint64 {
@@ -186,23 +187,28 @@ func freshStoreID() uint64 {
 	return nextStore
 }
 
-// storesInEtcd reads <root>/raft/s/ raw and returns the store ids that have a record.
-func storesInEtcd(n *livesrv.Node) (map[uint64]bool, error) {
+// storeLabelInEtcd reads the record of store 1 raw and returns the value of its "c03" label ("" = none).
+func storeLabelInEtcd(n *livesrv.Node) (string, error) {
 	cli := n.Svr.GetClient()
 	ctx, cancel := context.WithTimeout(context.Background(), 5*time.Second)
 	defer cancel()
-	pfx := path.Join(n.Root(), "raft", "s") + "/"
-	resp, err := cli.Get(ctx, pfx, clientv3.WithPrefix(), clientv3.WithKeysOnly())
+	resp, err := cli.Get(ctx, path.Join(n.Root(), "raft", "s", fmt.Sprintf("%020d", 1)))
 	if err != nil {
-		return nil, err
+		return "", err
 	}
-	m := map[uint64]bool{}
-	for _, kv := range resp.Kvs {
-		if id, err := strconv.ParseUint(strings.TrimPrefix(string(kv.Key), pfx), 10, 64); err == nil {
-			m[id] = true
+	if len(resp.Kvs) != 1 {
+		return "", fmt.Errorf("store 1 has no record in etcd")
+	}
+	st := &metapb.Store{}
+	if err := st.Unmarshal(resp.Kvs[0].Value); err != nil {
+		return "", err
+	}
+	for _, l := range st.GetLabels() {
+		if l.GetKey() == "c03" {
+			return l.GetValue(), nil
 		}
 	}
-	return m, nil
+	return "", nil
 }
 
 // ---------------------------------------------------------------- runner
@@ -321,8 +327,9 @@ func runGrpc(c LCase) (info vkit.Info, err error) {
 				ev.OK, ev.Detail = true, fmt.Sprintf("store %d %s", resp.GetStore().GetId(), resp.GetStore().GetAddress())
 			}
 		case "putstore":
+			// the bootstrap store registers again with another label value (what a restarted TiKV does); no new stores pile up
 			ev.StoreID = freshStoreID()
-			st := &metapb.Store{Id: ev.StoreID, Address: fmt.Sprintf("c03-%d:20160", ev.StoreID), Version: "4.0.0"}
+			st := &metapb.Store{Id: 1, Address: "mock://1", Version: "4.0.0", Labels: []*metapb.StoreLabel{{Key: "c03", Value: strconv.FormatUint(ev.StoreID, 10)}}}
 			ev.Send = livesrv.Stamp()
 			resp, e := cli.PutStore(ctx, &pdpb.PutStoreRequest{Header: hdr, Store: st})
 			ev.Recv = livesrv.Stamp()
@@ -368,6 +375,7 @@ func runGrpc(c LCase) (info vkit.Info, err error) {
 		return ev
 	}
 
+	classes := map[string]bool{}
 	type downIv struct{ a, b int64 }
 	var downs []downIv
 	changes, proven, provenKinds, afterOld := 0, 0, map[string]bool{}, 0
@@ -390,14 +398,15 @@ func runGrpc(c LCase) (info vkit.Info, err error) {
 		wg.Wait()
 		// ---- step-down with callers that keep sending to the old leader
 		stopCallers := make(chan struct{})
-		var phase sync.Map // caller -> "during"/"after"
 		var dwg sync.WaitGroup
 		afterLeft := make([]int, len(rd.Kinds))
 		var afterMu sync.Mutex
 		settled := make(chan struct{})
+		for w := range afterLeft {
+			afterLeft[w] = rd.After
+		}
 		for w := range rd.Kinds {
 			dwg.Add(1)
-			phase.Store(w, "during")
 			go func(w int) {
 				defer dwg.Done()
 				for i := 0; i < 6000; i++ {
@@ -417,12 +426,9 @@ func runGrpc(c LCase) (info vkit.Info, err error) {
 					default:
 					}
 					call(ri, w, ph, old, rd.Kinds[w][i%len(rd.Kinds[w])])
-					time.Sleep(500 * time.Microsecond)
+					time.Sleep(time.Millisecond)
 				}
 			}(w)
-		}
-		for w := range afterLeft {
-			afterLeft[w] = rd.After
 		}
 		time.Sleep(time.Duration(1+ri) * time.Millisecond)
 		stopWatch := make(chan struct{})
@@ -487,7 +493,14 @@ func runGrpc(c LCase) (info vkit.Info, err error) {
 		}
 		expectRev = rec.CreateRev
 		changes++
-		info.ClassIf(newLeader != old, "leadership-moved-to-another-member")
+		if os.Getenv("VERIF_GRPC_DEBUG") != "" {
+			h.mu.Lock()
+			fmt.Printf("  round %d: step-down..settled+after %.1f ms, window %.1f ms, %d events so far\n", ri, float64(livesrv.Stamp()-a)/1e6, float64(win.Until-win.From)/1e6, len(h.evs))
+			h.mu.Unlock()
+		}
+		if newLeader != old {
+			classes["leadership-moved-to-another-member"] = true
+		}
 		h.mu.Lock()
 		h.note = append(h.note, fmt.Sprintf("round %d: %s steps down (resign=%v): ResetLeader returned @%d, record not owned by it until at least @%d (%d raw reads); leader afterwards: %s",
 			ri, old.Name, rd.Resign, win.From-base, win.Until-base, win.Polls, newLeader.Name))
@@ -527,7 +540,10 @@ func runGrpc(c LCase) (info vkit.Info, err error) {
 				}
 			case "members":
 				if !ev.OK {
-					if !strings.Contains(ev.Err, "DeadlineExceeded") {
+					if mc != nil && rd.Resign {
+						// the etcd leadership is being handed over: the member list may be unavailable for a moment
+						classes["members-unavailable-during-etcd-hand-over"] = true
+					} else if !strings.Contains(ev.Err, "DeadlineExceeded") {
 						violate("#%d GetMembers was not served by %s while it was not leader: %s%s", ev.No, ev.To, ev.Err, ev.HdrErr)
 					}
 				} else if ev.LeaderID == oldID {
@@ -547,19 +563,25 @@ func runGrpc(c LCase) (info vkit.Info, err error) {
 
 		// (2) refused PutStores wrote nothing
 		if len(refusedStores) > 0 {
-			inEtcd, e := storesInEtcd(newLeader)
+			stored, e := storeLabelInEtcd(newLeader)
 			if e != nil {
 				setInc("raw-read-failed")
 			} else {
-				rc := newLeader.Svr.GetRaftCluster()
-				for _, id := range refusedStores {
-					if inEtcd[id] {
-						violate("round %d: PutStore of store %d was refused, yet etcd holds a record of that store", ri, id)
-					} else if rc != nil && rc.GetStore(id) != nil {
-						violate("round %d: PutStore of store %d was refused, yet the leader serves that store", ri, id)
+				served := ""
+				if rc := newLeader.Svr.GetRaftCluster(); rc != nil {
+					if st := rc.GetStore(1); st != nil {
+						served = st.GetLabelValue("c03")
 					}
 				}
-				info.Class("refused-putstore-left-no-record")
+				for _, id := range refusedStores {
+					v := strconv.FormatUint(id, 10)
+					if stored == v {
+						violate("round %d: the PutStore carrying label c03=%s was refused, yet the store record in etcd carries that value", ri, v)
+					} else if served == v {
+						violate("round %d: the PutStore carrying label c03=%s was refused, yet the leader serves the store with that value", ri, v)
+					}
+				}
+				classes["refused-putstore-left-no-trace"] = true
 			}
 		}
 
@@ -591,11 +613,17 @@ func runGrpc(c LCase) (info vkit.Info, err error) {
 			}
 			for _, n := range nodes {
 				ev := call(ri, -1, "sample", n, "members")
-				if ev.OK && ev.LeaderID != rec.Holder {
-					// a follower learns the leader through its watch; give it the time the settle wait already gave
-					if n == lead || k > 0 {
-						violate("round %d sample %d: GetMembers of %s names member %d as leader, the leader record is owned by member %d", ri, k, n.Name, ev.LeaderID, rec.Holder)
-					}
+				if !ev.OK {
+					continue
+				}
+				switch {
+				case n == lead && ev.LeaderID != rec.Holder:
+					violate("round %d sample %d: GetMembers of the leader %s names member %d as leader, the leader record is owned by member %d", ri, k, n.Name, ev.LeaderID, rec.Holder)
+				case n != lead && ev.LeaderID == n.Svr.GetMember().ID():
+					violate("round %d sample %d: GetMembers of %s names %s itself as leader, the leader record is owned by member %d", ri, k, n.Name, n.Name, rec.Holder)
+				case n != lead && ev.LeaderID != rec.Holder:
+					// a follower learns the leader through its own watch / 200 ms poll: lagging is not claimed to be wrong
+					classes["follower-view-lags"] = true
 				}
 			}
 			time.Sleep(time.Duration(200+300*k) * time.Microsecond)
@@ -648,10 +676,18 @@ func runGrpc(c LCase) (info vkit.Info, err error) {
 	}
 	info.Class(fmt.Sprintf("leader-changes-%d", changes))
 	for k := range provenKinds {
-		info.Class("old-leader-proven-" + k)
+		classes["old-leader-proven-"+k] = true
 	}
 	for k := range served {
-		info.Class("leader-served-" + k)
+		classes["leader-served-"+k] = true
+	}
+	var cl []string
+	for k := range classes {
+		cl = append(cl, k)
+	}
+	sort.Strings(cl)
+	for _, k := range cl {
+		info.Class(k)
 	}
 	info.ClassIf(afterOld > 0, "old-leader-refused-after-take-over")
 	info.NonTrivial = changes >= 1 && proven >= 1
